@@ -2,7 +2,18 @@
 """prints the prompt for a mutant-writing sub-agent: only the property text and a worktree path"""
 import json, sys
 pid = sys.argv[1]
-wt = f"/tmp/seed-{pid}"
+rnd = sys.argv[2] if len(sys.argv) > 2 else ""          # "" = first round, "2" = second round ...
+wt = f"/tmp/seed{rnd}-{pid}"
+outd = f"/tmp/seed-out{rnd}/{pid}"
+earlier = ""
+if rnd:
+    import os
+    m = f"/verif/seeded/{pid}/meta.json"
+    if os.path.exists(m):
+        meta = json.load(open(m))
+        earlier = f"""
+
+An earlier reviewer already produced one such change for this property: it touched {', '.join(meta['files_changed'])} and needed: {meta['needs_to_manifest']}. Yours must use a DIFFERENT mechanism (another function, another part of the statement, another kind of input)."""
 p = [json.loads(l) for l in open('/verif/properties.jsonl') if json.loads(l)['id'] == pid][0]
 print(f"""You are helping to evaluate a verification effort for the Rust project kaj/rsass (a pure-Rust Sass/SCSS compiler: nom parser, scoped evaluator, built-in function modules, selector algebra, CSS output).
 
@@ -19,9 +30,11 @@ Your task: make a small change to the rsass sources in {wt} (typically 1-15 line
   (b) the existing test suite still passes completely (run it and check: 0 failed), and
   (c) the breakage needs something specific to manifest - an unusual input, a particular combination of features, a multi-step sequence, a boundary value, two cooperating sites that each look fine alone - NOT something that ordinary use or the first obvious example would expose at once. It should look like a plausible bug a maintainer could introduce (an off-by-one, a swapped argument, a missed case, a wrong comparison, an over-eager optimisation), not sabotage such as `if input == "magic"`.
 
-Then write a demonstration: either a Rust integration test file that can be dropped in as rsass/tests/seed_demo.rs and run with `cargo test -p rsass --test seed_demo --offline` (it may only use the public API of the rsass crate), or a shell script demo.sh taking the worktree path as $1. The demonstration must FAIL with your change applied and PASS on the unchanged code (verify both; do NOT use `git stash` - the stash list is shared with other worktrees - instead save your change with `git diff > /tmp/seed-out/{pid}/patch.diff`, undo it with `git apply -R`, and re-apply it with `git apply`).
+{earlier}
 
-Deliverables, written to /tmp/seed-out/{pid}/ (create the directory):
+Then write a demonstration: either a Rust integration test file that can be dropped in as rsass/tests/seed_demo.rs and run with `cargo test -p rsass --test seed_demo --offline` (it may only use the public API of the rsass crate), or a shell script demo.sh taking the worktree path as $1. The demonstration must FAIL with your change applied and PASS on the unchanged code (verify both; do NOT use `git stash` - the stash list is shared with other worktrees - instead save your change with `git diff > {outd}/patch.diff`, undo it with `git apply -R`, and re-apply it with `git apply`).
+
+Deliverables, written to {outd}/ (create the directory):
   - patch.diff : output of `git -C {wt} diff` with ONLY your source change (not the demo file)
   - seed_demo.rs or demo.sh : the demonstration
   - notes.md : which property it breaks and how, what exactly is needed for the breakage to manifest, and the commands you ran with their results (suite: N passed / 0 failed with the change; demo fails with / passes without).
